@@ -138,8 +138,16 @@ def _worker_chunk(modname, params, tier, root, indices, chunk_timeout):
         stats = Stats()
         viols = []
         errors = []
+        import signal
+        run_guard = params.get('run_wall_guard_s', 120)
+
+        def on_alarm(signum, frame):
+            raise HarnessError('run exceeded the %ds wall guard (hang that '
+                               'no logical budget bounds)' % run_guard)
+        signal.signal(signal.SIGALRM, on_alarm)
         for i in indices:
             rs = run_seed(root, mod.ID, tier, i)
+            signal.alarm(run_guard)
             try:
                 case = mod.gen_case(Seeds(rs), params, i)
                 case.setdefault('property', mod.ID)
@@ -152,8 +160,14 @@ def _worker_chunk(modname, params, tier, root, indices, chunk_timeout):
                                traceback.format_exc()))
                 continue
             except Exception:
-                errors.append((i, traceback.format_exc()))
+                errors.append((i, traceback.format_exc() + '\ncase: ' +
+                               jdump(locals().get('case'))[:1500]))
+                signal.alarm(0)
+                if len(errors) > 5:
+                    break
                 continue
+            finally:
+                signal.alarm(0)
             stats.inc('runs')
             if vs:
                 stats.inc('runs_with_violation')
